@@ -1,5 +1,5 @@
 (* C11/Driver.v — entry point of the correspondence run (extracted to OCaml). *)
-From RM Require Import C11.Model C11.Prims Gen.C11Src.
+From RM Require Import C11.Model C11.Prims Gen.C11Src C11.Session.
 From RM Require C09.Model C09.Grammar C11.Text C11.Text2.
 Open Scope Z_scope.
 
@@ -25,16 +25,25 @@ Fixpoint run_queries (p : profile) (st : symtab) (mbase : Z) (tbl : list (range 
       Ret ((a, b, g, src_fill_symbol p (src_fuel st) st mbase q) :: rest)
   end.
 
-(* module 0 is (mbase, msize, true) *)
-Definition run_case_st (st : symtab) (mbase msize : Z) (extra : list (Z * Z * bool)) (qs : list Z)
-  : outcome (list (sym_out * option (Z * sym_out) * option Z * outcome sym_out)) :=
-  let mods : list module :=
-    (mbase, msize, Some st) :: map (fun m : Z * Z * bool => (fst m, if snd m then Some st else None)) extra in
+(* module 0 is (mbase, msize, symbols); the further modules carry a flag: 0 = unknown to the supplier, 1 = the same symbol
+   file, 2 = a symbol file that does not parse.  Second pass: after the queries, the Symbolizer's pending_stats / stats as
+   C12's cache model gives them for the session (Session.session_stats): the lookups are, per query, the module the table
+   finds (front-end S) and the (debug_file, debug_id) pseudo-module of front-end G (key = length of the module list) *)
+Definition sup_of_flag (st : symtab) (f : Z) : sup :=
+  if f =? 1 then SymOk st else if f =? 2 then SymCorrupt else SymMissing.
+Definition case_result : Type :=
+  (list (sym_out * option (Z * sym_out) * option Z * outcome sym_out) * (nat * nat * list (option (bool * bool))))%type.
+Definition run_case_st (st : symtab) (mbase msize : Z) (extra : list (Z * Z * Z)) (qs : list Z) : outcome case_result :=
+  let smods : list smodule :=
+    (mbase, msize, SymOk st) :: map (fun m : Z * Z * Z => (fst m, sup_of_flag st (snd m))) extra in
+  let mods : list module := map to_module smods in
   do tbl <- mod_table mods;
-  run_queries Debug st mbase tbl mods qs.
+  do l <- run_queries Debug st mbase tbl mods qs;
+  let gk := length smods in
+  let keys := flat_map (fun q => match rm_get tbl q with Some idx => [Z.to_nat idx; gk] | None => [gk] end) qs in
+  Ret (l, session_stats (smods ++ [(0, 0, SymOk st)]) keys).
 
-Definition run_case (rf : raw_file) (mbase msize : Z) (extra : list (Z * Z * bool)) (qs : list Z)
-  : outcome (list (sym_out * option (Z * sym_out) * option Z * outcome sym_out)) :=
+Definition run_case (rf : raw_file) (mbase msize : Z) (extra : list (Z * Z * Z)) (qs : list Z) : outcome case_result :=
   do st <- build_symtab rf; run_case_st st mbase msize extra qs.
 
 (* round 5: the model reading the TEXT (the two sides of c11_from_parse, executed).  [ds] = the lines of the
